@@ -131,6 +131,9 @@ def solve_lp(
     # Extract LP coefficients (use cache if available)
     if problem._lp_cache is not None:
         lp_data = problem._lp_cache
+        # Bounds live on the Variable objects and can be edited between
+        # solves without invalidating the cache: refresh them
+        lp_data.bounds = LinearProgramExtractor().extract_bounds(variables)
     else:
         extractor = LinearProgramExtractor()
         try:
